@@ -52,6 +52,38 @@ CHECKS = {
  'C18': dict(
   text='Lean: C18_sort_perm, C18_sort_monotone(_reverse), C18_sort_stable_ties, C18_sort_int/str, C18_sortKeys_perm/sorted, C18_groupby_partition/ids/complete/order for all inputs. Correspondence: sort pipelines (pipe family) and groupby; oracle: permutation/monotone/keys attached/reverse/partition on datasets with ties and incomparable dict payloads.',
   note='Trusted as C01; CPython `sorted` being a correct stable sort is an assumption.', ref='7 C18'),
+ 'C08': dict(
+  text='Lean chunked-trace semantics of the lazy generators (Model/Trace.lean: every yielded value carries the user-function calls made since the previous yield); theorems C08_prefix, erasure to the untraced semantics, no-lookahead / once-in-order per stage, indexing footprint. Correspondence: every user function logs (stage, argument); the call log of the real pipeline is compared with the model after construction, after EVERY next() and for every ds[i]; oracle: nothing at construction, per stage each input once and in order.',
+  note='Trusted as C01 plus: code of a Python generator runs only between a resumption and the next yield. Scope: source, map, lazy filter, batch, unbatch, concatenate, zip, index slices, buffer-local shuffle; sort/groupby/eager filter/eager cache/one-time shuffle are eager by contract; prefetch read-ahead is bounded by C07.',
+  ref='7 C08'),
+ 'C09': dict(
+  text='Lean heap model with addresses (Model/Heap.lean): pickle.dumps = immutable tree, loads/deepcopy = fresh cells; theorems C09_isolated_serialising (every history, incl. mutating the original container), C09_isolated_copy (separation below/above the construction watermark), C09_handed_out_fresh/distinct, C09_mutate_handed_does_not_touch_store, and the counterexample for copy mode + original mutation. Check: random histories on real datasets in every mode (pickle, copy, wu, memory cache, disk cache) with in-place mutations of everything handed out, every access by every path compared with the pristine snapshot = the model prediction.',
+  note='Trusted as C01; fidelity and freshness of pickle / deepcopy / np.frombuffer are assumptions exercised by the harness (no separate driver family: the model predicts "the stored tree", which is exactly what the harness compares with).',
+  ref='7 C09'),
+ 'C11': dict(
+  text='Lean state machine of DiskCacheDataset/_DiskCacheWrapper with persistent directories, shared wrappers with holder counts, finalisation and process death (Model/Disk.lean); invariant Good preserved by EVERY operation incl. kill (C11_good_step/run), C11_values, C11_reuse_no_recompute, C11_reuse_after_kill, C11_kill_anywhere, C11_refuse_nonempty, C11_clear_iff, C11_clear_only, C11_calls_only_on_miss. Correspondence: histories executed by a child process on real diskcache directories, SIGKILLed at the kill points; outputs, upstream call counts (logged to a file that survives the kill) and directory existence diffed with the model; kills at random instants during a store are judged by the oracle (values never corrupt).',
+  note='Trusted as C01 plus SQLite/diskcache commit atomicity and durability under SIGKILL, CPython running __del__ when the last reference disappears; two caches on one directory at the same time in one process are not modelled.',
+  ref='7 C11'),
+ 'C12': dict(
+  text='Lean: C12_shuffle_perm, C12_tile_shuffle_perm, C12_choice_nodup/positions, C12_local_perm and C12_local_displacement for every oracle sequence, C12_arr_perm_inv, C12_frozen_copy_snapshot, C12_reshuffle_perm_partial (no other iterator started while in progress) and C12_reshuffle_interleaved_counterexample (known finding F10). Correspondence: all interleavings of two iterators over one ReShuffleDataset of length <= 3 + random ones, local shuffle with the draws of the real generator recorded and fed to the model; oracle: multiset / displacement / frozen copies on the implementation.',
+  note='Trusted as C01 plus numpy generators (shuffle permutes in place, choice in range, replace=False duplicate free).',
+  ref='7 C12'),
+ 'C13': dict(
+  text='Lean: C13_copy_preserves_cfg (copy() of every class forwards every configuration parameter, for every pipeline tree; table transcribed from the code), C13_seed_determinism and C13_epoch_global_independent (equal explicit seeds give equal orders in every epoch whatever is written into the global state between epochs, by induction over epochs and stages), C13_frozen_fixed. Correspondence: the table is compared with the configuration attributes of real objects of every class; oracle: copy()/copy().copy() attribute by attribute on every class and on random pipelines, seeded pipelines built twice / copied / behind prefetch over 3 epochs with the global numpy state reseeded adversarially.',
+  note='Trusted as C01 plus determinism of a seeded numpy RandomState. CycleDataset has no copy(): refusing is not an unfaithful copy. LocalShuffleDataset.copy(freeze=True) stays random (DESIGN.md 9).',
+  ref='7 C13'),
+ 'C16': dict(
+  text='Lean: the laws proved on the reference data for all inputs and lifted to the model through build_ref (C16_batch_unbatch(_general), C16_concat_split, C16_slice_slice(_spec,_range), C16_map_slice/shuffle/shard/sort, C16_map_concat, C16_map_batch_*, C16_map_cache, C16_map_map, C16_filter_select*, C16_tile_eq_concat, C16_model_*), with counterexample theorems where a law needs error-free inputs. Check: 13 laws instantiated on random base pipelines, both sides observed on the implementation (iteration, len, keys, ds[i]).',
+  note='Trusted as C01; laws are stated for datasets with distinct examples (a concatenation refuses duplicate keys by design).',
+  ref='7 C16'),
+ 'C19': dict(
+  text='Lean model of database.py on association lists (Model/Db.lean): C19_examples_once_in_order, C19_augmented, C19_alias_concat, C19_list_concat, C19_reject_overlap(_anywhere), C19_reject_duplicates, C19_reject_extra, C19_merge_total, C19_merged_dataset_lookup, C19_memo_shared, C19_memo_fresh_after_gc, C19_memo_examples_independent. Correspondence: random descriptions and requests on DictDatabase (both calling conventions) versus the model; oracle: JsonDatabase on temp files and its pickle answer identically, memo identity, deep comparison of the source dictionaries.',
+  note='Trusted as C01; "never changes the source dictionaries" is established by the correspondence/oracle (a functional model cannot mutate); Database.alias adds an empty alias entry to a single source dict (not flagged, DESIGN.md 9).',
+  ref='7 C19'),
+ 'C20': dict(
+  text='Lean model of the wrapper generator loop and __getitem__ (Model/Profile.lean): C20_iter_transparent, C20_iter_prefix, C20_hits_full, C20_hits_partial, C20_getitem_transparent, C20_shared_counts_under_copy, C20_failed_le_hits. Check: random pipelines plain versus profiled (iteration twice, len, ds[i], items(), behind thread prefetch), original object tree unchanged, counters of every wrapper compared with the number of examples fetched (formula of C20_hits_full), early stop, indexing.',
+  note='Trusted as C01; timing is not modelled; per-node counts are checked for pipelines of iterating stages whose iteration ends normally (with an error only the top node is fully consumed).',
+  ref='7 C20'),
 }
 
 m = {
